@@ -45,7 +45,10 @@ from calmjs.parse.unicode_chars import (
 # any character that may be part of an identifier name (7.6), aside from
 # the dollar sign; \w alone lacks the combining marks and connector
 # punctuations.
-_w = r'(?:\w|' + COMBINING_MARK + r'|' + CONNECTOR_PUNCTUATION + r')'
+_w = (
+    r'(?:[\w\u200c\u200d]|' + COMBINING_MARK + r'|' + CONNECTOR_PUNCTUATION +
+    r')'
+)
 word_char = re.compile(_w)
 required_space = re.compile(
     r'^(?:' + _w + _w + r'|\+\+|\-\-|//|' + _w + r'\$|\$' + _w +
